@@ -345,6 +345,31 @@ def getitem(I, obj, idx, node=None):
         raise PyRaise("KeyError", idx)
     if obj is None:
         raise PyRaise("TypeError", "None is not subscriptable")
+    if isinstance(obj, SStr):
+        # a symbolic string: slices and single characters through z3's str.substr (which truncates at the end of the
+        # string and yields "" for an empty or out-of-range window, as Python slices do); step 1 only
+        n = z3.Length(obj.t)
+
+        def pos(v, default):
+            if v is None:
+                return default
+            if isinstance(v, bool) or not (isinstance(v, int) or (isinstance(v, z3.ArithRef) and v.is_int())):
+                raise Unsupported(f"string index of type {type(v).__name__} at line {_ln(node)}")
+            if isinstance(v, int):
+                return z3.IntVal(v) if v >= 0 else z3.If(n + v < 0, z3.IntVal(0), n + v)
+            return z3.If(v >= 0, v, z3.If(n + v < 0, z3.IntVal(0), n + v))
+        if is_slice:
+            if idx[3] not in (None, 1):
+                raise Unsupported(f"string slice with a step at line {_ln(node)}")
+            lo = pos(idx[1], z3.IntVal(0))
+            hi = pos(idx[2], n)
+            return SStr(simp(z3.SubString(obj.t, lo, hi - lo)))
+        if isinstance(idx, bool) or not (isinstance(idx, int) or (isinstance(idx, z3.ArithRef) and idx.is_int())):
+            raise Unsupported(f"string index of type {type(idx).__name__} at line {_ln(node)}")
+        inside = sym.b_and(idx < n, idx >= -n) if not isinstance(idx, int) else (idx < n if idx >= 0 else -idx <= n)
+        if not I.ctx.branch(I.truth(inside), node):
+            raise PyRaise("IndexError", "string index out of range")
+        return SStr(simp(z3.SubString(obj.t, pos(idx, None), z3.IntVal(1))))
     raise Unsupported(f"subscript on {type(obj).__name__} at line {_ln(node)}")
 
 
